@@ -228,6 +228,17 @@ def run_orders(ctx, prop):
             best_so_far = None
             for b in order:
                 ops.append("addnv s s " + hx(b.serialize()))
+                if prop != "C04" and (oi + order.index(b)) % 3 == 0 and not tall:
+                    # somebody asks for the balances at a block that is not stored yet (announced, not delivered): no answer —
+                    # and no influence on the answer once it is stored
+                    try:
+                        early = cs.public_key_balances_by_hash[b.hash()]
+                        if len(early):
+                            res.violations.append({"kind": "balances reported at a block that is not stored",
+                                                   "order": [x.serialize().hex() for x in order]})
+                    except Exception:
+                        pass
+                    res.count("balances_asked_before_the_block_is_stored")
                 try:
                     cs = cs.add_block_no_validation(b)
                 except Exception as e:
